@@ -16,6 +16,10 @@ Three legs:
     finish AND for renders that fail (lookups up to the failure, same error kind).
  2b. the same programs with statements wrapped into named blocks and `self.name()` calls placed elsewhere
     (engine only - the Coq model has no blocks): asked <= reported + globals.
+ 2c. operation sequences on one environment (engine only): load a template under syntax / whitespace
+    configuration A, reconfigure to B and load another one, analyse and render both (also template_from_str and
+    Expression), go back to A, analyse again: soundness of every report, and the report of a stored template
+    must not change when the environment is reconfigured.
  3. proof audit of Props/C18.v (undeclared_sound for every outcome, nested mode, ...).
 Renders run with debug info off; the lookups of the error-reporting path with debug info on are the
 known finding `debug-info-lookups`, which is re-observed and kept apart from everything else.
